@@ -63,6 +63,9 @@ public:
 
     bool init_thread() {
       p = thr < hd->size() ? hd->getRemote(thr)->first : 0;
+      // a block emptied by pop() holds nothing to visit
+      while (p && p->dbegin == p->dend)
+        p = p->next;
       v = p ? p->dbegin : 0;
       return p;
     }
@@ -77,7 +80,9 @@ public:
 
     bool advance_chunk() {
       if (p) {
-        p = p->next;
+        do {
+          p = p->next;
+        } while (p && p->dbegin == p->dend);
         v = p ? p->dbegin : 0;
       }
       return p;
@@ -258,9 +263,9 @@ public:
 
   bool empty() const {
     for (unsigned x = 0; x < heads.size(); ++x) {
-      header* h = heads.getRemote(x)->first;
-      if (h)
-        return false;
+      for (header* h = heads.getRemote(x)->first; h; h = h->next)
+        if (h->dbegin != h->dend)
+          return false;
     }
     return true;
   }
